@@ -3,6 +3,8 @@ Driver for the `fs` protocol: `driver fs ref|mem|dir`.
 -/
 import Driver.Util
 import GooseVerif.Model.Fs
+import GooseVerif.Model.MemFs
+import GooseVerif.Model.DirFs
 
 namespace Driver.Fs
 open GooseVerif.Model.Fs
@@ -38,5 +40,53 @@ def refStep (s : Ref) (ws : List String) : Ref × String :=
     match parseOp ws with
     | some op => let r := s.step op; (r.1, showOut r.2)
     | none => (s, "bad-op")
+
+/-- MemFs model: descriptors are renamed between creation index (protocol) and value (model). -/
+def memStep (s : MemFs) (ws : List String) : MemFs × String :=
+  match ws with
+  | ["newfs"] => (MemFs.empty, "ok")
+  | _ =>
+    match parseOp ws with
+    | some op =>
+      let r := s.step (shiftOp op)
+      let out := match r.2 with
+        | .fd k => Out.fd (k - 1)
+        | o => o
+      (r.1, showOut out)
+    | none => (s, "bad-op")
+
+/-- DirFs model. Extra ops: `atomicx d n hex k kill|fail [shorts…]` runs AtomicCreate disturbed at
+system call `k`; `restart` models a new process on the same directory tree. -/
+def dirStep (s : Os) (ws : List String) : Os × String :=
+  match ws with
+  | ["newfs"] => (Os.empty, "ok")
+  | ["restart"] => (s.crash, "ok")
+  | "atomicx" :: d :: n :: hex :: k :: mode :: shorts =>
+    match bytesOfHex hex, k.toNat? with
+    | some data, some k =>
+      let sh := shorts.filterMap String.toNat?
+      let dist : Disturb :=
+        if mode == "kill" then { shorts := sh, stopAfter := some k }
+        else if mode == "fail" then { shorts := sh, failAt := some k }
+        else { shorts := sh }
+      let r := acRun s d n data dist
+      (r.1, match r.2 with | .ok => "ok" | .panic => "panic" | .crashed => "crashed")
+    | _, _ => (s, "bad-op")
+  | _ =>
+    match parseOp ws with
+    | some op => let r := DirFs.step s op; (r.1, showOut r.2)
+    | none => (s, "bad-op")
+
+/-- Reference model with the two outcomes the property allows for a disturbed AtomicCreate:
+`atomicx … applied` behaves as a completed AtomicCreate, `atomicx … dropped` as no call at all. -/
+def refStepX (s : Ref) (ws : List String) : Ref × String :=
+  match ws with
+  | ["restart"] => ({ s with fds := [] }, "ok")
+  | ["atomicx", d, n, hex, "applied"] =>
+    match bytesOfHex hex with
+    | some data => let r := s.step (.atomic d n data); (r.1, "any")
+    | none => (s, "bad-op")
+  | ["atomicx", _, _, _, "dropped"] => (s, "any")
+  | _ => refStep s ws
 
 end Driver.Fs
